@@ -92,11 +92,28 @@ func ExtractTypeNameMap(v interface{}) (map[string]reflect.Type, map[string]stri
 			nameMap[v] = v
 
 			typ, _ := typMap[k]
-			typMap[v] = typ
+			if old, ok := typMap[v]; !ok || preferListType(typ, old) {
+				typMap[v] = typ
+			}
 		}
 	}
 
 	return typMap, nameMap
+}
+
+// preferListType tells which of two Go slice types that travel under one list type name ([]T and []*T are both
+// "[T") a decoded list of that name is given: the one with pointer elements, the only one of the two that can
+// hold a null element (it is converted when assigned to a field of the other type). The choice must not depend
+// on the order in which the types were met.
+func preferListType(typ, old reflect.Type) bool {
+	if typ == nil || old == nil || typ == old {
+		return old == nil && typ != nil
+	}
+	n, o := strings.Count(typ.String(), "*"), strings.Count(old.String(), "*")
+	if n != o {
+		return n > o
+	}
+	return typ.String() < old.String()
 }
 
 // remove pointer '*' and right bracket ']'
